@@ -14,7 +14,7 @@
 
    C14 (slot-selection signatures) is not here: Model/C14_Subscriptions.v has no signing request,
    the signature of a duty is an input ([d_sig], [d_hash]); see notes/compose_C06more.md. *)
-From Coq Require Import List NArith Bool.
+From Coq Require Import List NArith ZArith Bool Lia.
 From Verif Require Import Lib.Base Lib.Ssz Model.C06_Signer Proofs.C06 Proofs.C06_Spec.
 From Verif Require Properties.C06.
 From Verif Require Model.C11_Registrations Proofs.C11 Properties.C11.
@@ -49,11 +49,54 @@ Definition reg_msg (ct : R.content) (stamp : N) : registration :=
 (* the message of a signed registration as it is submitted / cached *)
 Definition sreg_msg (sr : R.sreg) : registration := reg_msg (R.sr_content sr) (R.sr_stamp sr).
 
+(* The Go value (builderv1.ValidatorRegistration) that generateValidatorRegistrationForRelay builds
+   from a content and the round's timestamp.  C11's timestamp is a whole number of seconds (the
+   round's time.Now().Round(time.Second), [R.r_now]); the signer model takes the time.Time, as
+   nanoseconds since the Unix epoch: the instant is [stamp] seconds EXACTLY, no sub-second part. *)
+Definition go_reg (ct : R.content) (stamp : N) : go_registration :=
+  GoRegistration (R.ct_fee ct) (R.ct_gas ct) (Z.of_N stamp * 1000000000)%Z (R.ct_pub ct).
+
+(* 2^64.  The timestamp of the message that is hashed, signed and sent is a uint64 of seconds
+   ([wire_registration]: uint64(Timestamp.Unix())), so a C11 timestamp is the timestamp of the wire
+   message when it is below this bound -- true of every real clock: 2^64 s is about 5.8e11 years,
+   and a Go time.Time cannot even represent an instant that far (int64 seconds since year 1).  It
+   is carried as an explicit hypothesis where the signed message is equated with C11's. *)
+Definition uint64_bound : N := 18446744073709551616.
+
+(* what goes on the wire for [go_reg ct stamp]: C11's message with the timestamp wrapped to uint64;
+   C11's message itself for every timestamp a uint64 can hold *)
+Lemma wire_go_reg_wrapped ct stamp :
+  wire_registration (go_reg ct stamp) = reg_msg ct (stamp mod uint64_bound).
+Proof.
+  unfold wire_registration, go_reg, reg_msg, unix_seconds, to_uint64.
+  cbn [gr_fee_recipient gr_gas_limit gr_time_ns gr_pubkey].
+  rewrite Z.div_mul by discriminate.
+  change 18446744073709551616%Z with (Z.of_N uint64_bound).
+  rewrite <- N2Z.inj_mod, N2Z.id. reflexivity.
+Qed.
+
+Lemma wire_go_reg ct stamp :
+  stamp < uint64_bound -> wire_registration (go_reg ct stamp) = reg_msg ct stamp.
+Proof. intro Hs. rewrite wire_go_reg_wrapped, N.mod_small by exact Hs. reflexivity. Qed.
+
 (* generateValidatorRegistrationForRelay's call
      SignValidatorRegistration(ctx, account, &VersionedValidatorRegistration{V1, registration})
    as a request of the signer model *)
 Definition reg_request (acct : N -> account) (q : R.sigreq) : request :=
-  ReqRegistration (acct (R.q_acct q)) (Some (reg_msg (R.q_content q) (R.q_stamp q))).
+  ReqRegistration (acct (R.q_acct q)) (Some (go_reg (R.q_content q) (R.q_stamp q))).
+
+(* the request carries the Go value whose instant is the request's timestamp in seconds, exactly *)
+Lemma reg_request_instant acct q :
+  exists g, reg_request acct q = ReqRegistration (acct (R.q_acct q)) (Some g)
+            /\ gr_time_ns g = (Z.of_N (R.q_stamp q) * 1000000000)%Z
+            /\ unix_seconds (gr_time_ns g) = Z.of_N (R.q_stamp q)
+            /\ (gr_time_ns g mod 1000000000 = 0)%Z
+            /\ gr_fee_recipient g = R.ct_fee (R.q_content q) /\ gr_gas_limit g = R.ct_gas (R.q_content q)
+            /\ gr_pubkey g = R.ct_pub (R.q_content q).
+Proof.
+  exists (go_reg (R.q_content q) (R.q_stamp q)). unfold go_reg, unix_seconds. cbn.
+  rewrite Z.div_mul, Z.mod_mul by discriminate. repeat split.
+Qed.
 
 (* the builder specification's signing root of a registration: DOMAIN_APPLICATION_BUILDER, genesis
    fork version, zero genesis validators root *)
@@ -80,22 +123,35 @@ Section Registrations.
   Definition reg_sig_value (s : R.sig) : sig :=
     sign (a_key (acct (R.sg_acct s))) (builder_signing_root H c (reg_msg (R.sg_content s) (R.sg_stamp s))).
 
-  Lemma reg_request_signed q sigs :
+  (* unconditionally: the message signed is C11's with the timestamp wrapped to a uint64 *)
+  Lemma reg_request_signed_wrapped q sigs :
     RUN (reg_request acct q) = Ok sigs ->
-    sigs = [sign (a_key (acct (R.q_acct q))) (builder_signing_root H c (reg_msg (R.q_content q) (R.q_stamp q)))]
+    sigs = [sign (a_key (acct (R.q_acct q)))
+                 (builder_signing_root H c (reg_msg (R.q_content q) (R.q_stamp q mod uint64_bound)))]
     /\ a_fail (acct (R.q_acct q)) = false.
   Proof.
     intro Hrun. unfold reg_request in Hrun.
     destruct (Properties.C06.C06_registration_is_spec_root H sig zero_sig sign c _ _ sigs Hrun)
       as [r [Hr [Hs Hf]]].
-    injection Hr as <-. split; [exact Hs | exact Hf].
+    injection Hr as <-. rewrite wire_go_reg_wrapped in Hs. split; [exact Hs | exact Hf].
+  Qed.
+
+  (* for a timestamp that fits a uint64: C11's message itself *)
+  Lemma reg_request_signed q sigs :
+    RUN (reg_request acct q) = Ok sigs ->
+    (R.q_stamp q < uint64_bound ->
+     sigs = [sign (a_key (acct (R.q_acct q))) (builder_signing_root H c (reg_msg (R.q_content q) (R.q_stamp q)))])
+    /\ a_fail (acct (R.q_acct q)) = false.
+  Proof.
+    intro Hrun. destruct (reg_request_signed_wrapped q sigs Hrun) as [Hs Hf]. split; [|exact Hf].
+    intro Hfit. rewrite N.mod_small in Hs by exact Hfit. exact Hs.
   Qed.
 
   (* the registration a successful request produces carries, as signature tag, that request: the
      signer's answer is the tag's value, and it is over the registration's own message *)
   Lemma reg_of_req_signed q sigs :
     RUN (reg_request acct q) = Ok sigs ->
-    sigs = [reg_sig_value (R.sr_sig (RP.reg_of_req q))]
+    (R.sr_stamp (RP.reg_of_req q) < uint64_bound -> sigs = [reg_sig_value (R.sr_sig (RP.reg_of_req q))])
     /\ reg_sig_value (R.sr_sig (RP.reg_of_req q))
        = sign (a_key (acct (R.q_acct q))) (builder_signing_root H c (sreg_msg (RP.reg_of_req q)))
     /\ a_fail (acct (R.q_acct q)) = false.
@@ -118,8 +174,9 @@ Lemma registration_requests_signed :
       /\ forall (H : N -> N -> N) (sig : Type) (zero_sig : sig) (sign : N -> N -> sig) (c : chain)
                 (acct : N -> account) (sigs : list sig),
            run H sig zero_sig (spec_provider H c) (honest H sig sign) (spec_service c) (reg_request acct q) = Ok sigs ->
-           sigs = [sign (a_key (acct (R.v_acct v)))
-                        (builder_signing_root H c (Registration (R.rc_fee rc) (R.rc_gas rc) (R.r_now r) (R.v_pub v)))]
+           (R.r_now r < uint64_bound ->
+            sigs = [sign (a_key (acct (R.v_acct v)))
+                         (builder_signing_root H c (Registration (R.rc_fee rc) (R.rc_gas rc) (R.r_now r) (R.v_pub v)))])
            /\ a_fail (acct (R.v_acct v)) = false.
 Proof.
   intros ops q Hq.
@@ -131,7 +188,7 @@ Proof.
   split; [exact Hm|].
   intros H sig zero_sig sign c acct sigs Hrun.
   destruct (reg_request_signed H sig zero_sig sign c acct q sigs Hrun) as [Hsig Hf].
-  rewrite Hm, Ha in Hsig. rewrite Ha in Hf. split; assumption.
+  rewrite Hm, Ha, Hs in Hsig. rewrite Ha in Hf. split; assumption.
 Qed.
 
 (* a registration emitted by the generation phase is the product of a successful request of the log *)
@@ -159,7 +216,7 @@ Lemma sent_registrations_signed :
         /\ forall (H : N -> N -> N) (sig : Type) (zero_sig : sig) (sign : N -> N -> sig) (c : chain)
                   (acct : N -> account) (sigs : list sig),
              run H sig zero_sig (spec_provider H c) (honest H sig sign) (spec_service c) (reg_request acct q) = Ok sigs ->
-             sigs = [reg_sig_value H sig sign c acct (R.sr_sig sr)]
+             (R.sr_stamp sr < uint64_bound -> sigs = [reg_sig_value H sig sign c acct (R.sr_sig sr)])
              /\ reg_sig_value H sig sign c acct (R.sr_sig sr)
                 = sign (a_key (acct (R.q_acct q))) (builder_signing_root H c (sreg_msg sr))
              /\ a_fail (acct (R.q_acct q)) = false.
@@ -271,7 +328,7 @@ Lemma cached_registrations_signed :
       /\ forall (H : N -> N -> N) (sig : Type) (zero_sig : sig) (sign : N -> N -> sig) (c : chain)
                 (acct : N -> account) (sigs : list sig),
            run H sig zero_sig (spec_provider H c) (honest H sig sign) (spec_service c) (reg_request acct q) = Ok sigs ->
-           sigs = [reg_sig_value H sig sign c acct (R.sr_sig sr)]
+           (R.sr_stamp sr < uint64_bound -> sigs = [reg_sig_value H sig sign c acct (R.sr_sig sr)])
            /\ reg_sig_value H sig sign c acct (R.sr_sig sr)
               = sign (a_key (acct (R.q_acct q))) (builder_signing_root H c (sreg_msg sr))
            /\ a_fail (acct (R.q_acct q)) = false.
@@ -282,6 +339,41 @@ Proof.
   exists q. cbn [app] in Hq. repeat (split; [first [assumption | subst sr; exact Hct]|]).
   intros H sig zero_sig sign c acct sigs Hrun. subst sr.
   exact (reg_of_req_signed H sig zero_sig sign c acct q sigs Hrun).
+Qed.
+
+(* ---- the hypothesis "the timestamp fits a uint64" of the statements above is a hypothesis on the
+   clock only: every timestamp of a request, of a registration sent and of a registration cached is
+   the time [R.r_now] of a round of the history ---- *)
+
+Definition clock_fits (ops : list R.op) : Prop :=
+  forall k r, nth_error ops k = Some (R.ORound r) -> R.r_now r < uint64_bound.
+
+Lemma request_stamps_fit ops q :
+  clock_fits ops -> In q (RP.all_reqs (snd (R.run R.init ops))) -> R.q_stamp q < uint64_bound.
+Proof.
+  intros Hclk Hq.
+  destruct (RP.history_req ops R.init [] q RP.J_init Hq) as [k [r [v [rc [Hk [_ [_ [_ Hs]]]]]]]].
+  rewrite Hs. exact (Hclk k r Hk).
+Qed.
+
+Lemma sent_stamps_fit ops i r err reqs relays nodes sr :
+  clock_fits ops ->
+  nth_error ops i = Some (R.ORound r) ->
+  nth_error (snd (R.run R.init ops)) i = Some (R.OutRound err reqs relays nodes) ->
+  round_sends relays nodes sr -> R.sr_stamp sr < uint64_bound.
+Proof.
+  intros Hclk Hop Hout Hsent.
+  destruct (sent_registrations_signed ops i r err reqs relays nodes Hop Hout sr Hsent) as [q [Hq [_ [Hsr _]]]].
+  subst sr. cbn [RP.reg_of_req R.sr_stamp].
+  apply (request_stamps_fit ops q Hclk). exact (RP.In_all_reqs_firstn _ _ _ Hq).
+Qed.
+
+Lemma cached_stamps_fit ops ct sr :
+  clock_fits ops -> In (ct, sr) (R.signed (fst (R.run R.init ops))) -> R.sr_stamp sr < uint64_bound.
+Proof.
+  intros Hclk Hin.
+  destruct (cached_registrations_signed ops ct sr Hin) as [q [Hq [_ [Hsr _]]]].
+  subst sr. cbn [RP.reg_of_req R.sr_stamp]. exact (request_stamps_fit ops q Hclk Hq).
 Qed.
 
 (* ============================================================================================ *)
@@ -679,7 +771,7 @@ Lemma relay_registrations_configured_and_signed :
           /\ forall (H : N -> N -> N) (sig : Type) (zero_sig : sig) (sign : N -> N -> sig) (c : chain)
                     (acct : N -> account) (sigs : list sig),
                run H sig zero_sig (spec_provider H c) (honest H sig sign) (spec_service c) (reg_request acct q) = Ok sigs ->
-               sigs = [reg_sig_value H sig sign c acct (R.sr_sig sr)]
+               (R.sr_stamp sr < uint64_bound -> sigs = [reg_sig_value H sig sign c acct (R.sr_sig sr)])
                /\ reg_sig_value H sig sign c acct (R.sr_sig sr)
                   = sign (a_key (acct (R.v_acct v)))
                          (builder_signing_root H c (Registration (R.rc_fee rc) (R.rc_gas rc) (R.sr_stamp sr) (R.v_pub v)))
@@ -698,7 +790,7 @@ Proof.
   assert (Hval : reg_sig_value H sig sign c acct (R.sr_sig sr)
                  = sign (a_key (acct (R.v_acct v))) (builder_signing_root H c (sreg_msg sr))).
   { rewrite Hsig. reflexivity. }
-  split; [rewrite Hval; exact Hs|]. split; [rewrite Hval, Hm; reflexivity | exact Hf].
+  split; [intro Hfit; rewrite Hval; exact (Hs Hfit)|]. split; [rewrite Hval, Hm; reflexivity | exact Hf].
 Qed.
 
 (* (c) the fired slot of a call of scheduleSyncCommitteeMessages: anything happens only when the
